@@ -17,7 +17,7 @@ pub struct Airports {
 }
 
 pub fn airports() -> Airports {
-    let text = std::fs::read_to_string("/repo/crates/rs1090/data/airports.json").expect("airports.json");
+    let text = std::fs::read_to_string(vcore::ev::repo_root().join("crates/rs1090/data/airports.json")).expect("airports.json");
     let v: Value = serde_json::from_str(&text).expect("airports.json parses");
     let list: Vec<([String; 5], f64, f64)> = v
         .as_array()
